@@ -8806,6 +8806,9 @@ void SoPlexBase<R>::_syncLPReal(bool time)
    else
       *_realLP = *_rationalLP;
 
+   // the copy of the rational LP is not scaled, whatever the replaced LP was
+   _isRealLPScaled = false;
+
    ///@todo try loading old basis
    _hasBasis = false;
    _rationalLUSolver.clear();
